@@ -114,7 +114,12 @@ def check(case):
     depth = int(m.tree_depth_)
     require(depth <= o["max_depth"], "depth:exceeds-max_depth", "%d > %d" % (depth, o["max_depth"]), facts)
     require(int(DPd.sum(axis=1).max()) <= depth, "decision_path:longer-than-depth", "", facts)
+    if case.get("warmup", True):
+        m.get_leaves_index()               # an accessor: asking twice (or after the other methods) gives the same answer
     leaves = [int(i) for i in m.get_leaves_index()]
+    again = np.asarray(m.decision_path(Q).todense())
+    require(np.array_equal(again, DPd), "decision_path:second-call-differs", "", facts)
+    require(np.array_equal(np.asarray(m.predict_proba(Q)), P), "proba:second-call-differs", "", facts)
     require(len(set(leaves)) == len(leaves) and all(0 <= i < nn for i in leaves), "leaves:index-range", "%r" % leaves, facts)
     terminal = np.array([int(np.nonzero(row)[0].max()) for row in DPd])
     require(set(terminal.tolist()) <= set(leaves), "leaves:terminal-not-listed", "terminal nodes %r, get_leaves_index %r" % (sorted(set(terminal.tolist())), leaves), facts)
